@@ -108,28 +108,27 @@ def rule(r):
 
 
 class Namer:
-    """emits one Definition per distinct Rule / TerminalDef object and refers to it by name afterwards"""
+    """emits one Definition per distinct exported term (keyed by its text) and refers to it by name afterwards, so
+    that rules / terminals / tables / dicts shared by several cases are elaborated by Coq once"""
 
     def __init__(self, prefix):
         self.prefix = prefix
         self.names = {}
-        self.objs = []       # keeps the objects alive so that id() stays unique
         self.defs = []
 
-    def ref(self, obj, kind, fn):
-        k = id(obj)
-        if k not in self.names:
+    def intern(self, kind, text):
+        nm = self.names.get(text)
+        if nm is None:
             nm = '%s_%s%d' % (self.prefix, kind, len(self.names))
-            self.names[k] = nm
-            self.objs.append(obj)
-            self.defs.append('Definition %s := %s.' % (nm, fn(obj)))
-        return self.names[k]
+            self.names[text] = nm
+            self.defs.append('Definition %s := %s.' % (nm, text))
+        return nm
 
     def rule(self, r):
-        return self.ref(r, 'r', rule)
+        return self.intern('r', rule(r))
 
     def term(self, t):
-        return self.ref(t, 't', termdef)
+        return self.intern('t', termdef(t))
 
 
 def table(pt, nm):
@@ -148,7 +147,7 @@ def table(pt, nm):
                 raise NotExportable('action %r' % (act,))
         sts.append('(%s, %s)' % (Z(st), L(al)))
     nmap = lambda d: L(['(%s, %s)' % (S(str(k)), Z(v)) for k, v in d.items()])
-    return '(mkTable %s %s %s)' % (L(sts), nmap(pt.start_states), nmap(pt.end_states))
+    return nm.intern('tbl', '(mkTable %s %s %s)' % (L(sts), nmap(pt.start_states), nmap(pt.end_states)))
 
 
 def re_is_regex(mod):
@@ -159,7 +158,7 @@ def lexer_conf(lc, nm, opq):
     if not isinstance(lc.lexer_type, str):
         raise NotExportable('custom lexer')
     return '(mkLC %s %s %s %s %s %s %s %s)' % (
-        L([nm.term(t) for t in lc.terminals]), L([S(str(x)) for x in lc.ignore]), Z(lc.g_regex_flags),
+        nm.intern('terms', L([nm.term(t) for t in lc.terminals])), L([S(str(x)) for x in lc.ignore]), Z(lc.g_regex_flags),
         B(lc.use_bytes) if isinstance(lc.use_bytes, bool) else _bad('use_bytes'), S(lc.lexer_type),
         value(lc.callbacks, opq), B(re_is_regex(lc.re_module)), value(lc.postlex, opq))
 
@@ -174,16 +173,18 @@ def instance(p, nm, opq):
     if fe.lexer_conf is not p.lexer_conf:
         raise NotExportable('lexer_conf not shared')
     pc = fe.parser_conf
-    pct = '(mkPC %s %s %s)' % (L([nm.rule(r) for r in pc.rules]), L([S(str(x)) for x in pc.start]), S(pc.parser_type))
+    pct = '(mkPC %s %s %s)' % (nm.intern('rules', L([nm.rule(r) for r in pc.rules])), L([S(str(x)) for x in pc.start]),
+                               S(pc.parser_type))
     return '(mkLark (mkFE %s %s %s) %s %s)' % (lexer_conf(fe.lexer_conf, nm, opq), pct,
                                               table(fe.parser._parse_table, nm),
-                                              L([nm.rule(r) for r in p.rules]), options(p.options.options, opq))
+                                              nm.intern('rules', L([nm.rule(r) for r in p.rules])),
+                                              nm.intern('opts', options(p.options.options, opq)))
 
 
 def gpart(p, nm):
     fe = p.parser
     lc, pc = fe.lexer_conf, fe.parser_conf
     return '(mkG %s %s %s %s %s %s %s)' % (
-        L([nm.term(t) for t in lc.terminals]), L([S(str(x)) for x in lc.ignore]), S(lc.lexer_type),
-        L([nm.rule(r) for r in p.rules]), L([S(str(x)) for x in pc.start]), S(pc.parser_type),
+        nm.intern('terms', L([nm.term(t) for t in lc.terminals])), L([S(str(x)) for x in lc.ignore]), S(lc.lexer_type),
+        nm.intern('rules', L([nm.rule(r) for r in p.rules])), L([S(str(x)) for x in pc.start]), S(pc.parser_type),
         table(fe.parser._parse_table, nm))
